@@ -31,7 +31,8 @@ P = r'harris_michael_list_based_set<Key, Policies\.\.\.>::'
 #   find_info info{&head};      -> struct find_info info; FI_INIT(info, &head);
 #   backoff backoff; / backoff(); -> int backoff = 0; / XV_BACKOFF();
 # destructors: for every local `struct guard X;` / `struct find_info X;` / `struct iter X;` the destructor stub is called at
-# the end of the enclosing block and before every return inside it (py_post rule `dtors`).
+# the end of the enclosing block and before every return inside it (rule `dtors`, applied in the py_pre stage after the function's
+# own pre_subst, i.e. before the generic rules and before loops are cut).
 # ---------------------------------------------------------------------------------------------------------------
 def guard_rules(s, lw):
     g = lw.spec.get('guards', [])
@@ -114,10 +115,6 @@ def FIND_SEQ(l):
     # SEQ: the start can be marked once (restart from head), no other retry is possible, the walk visits <= L nodes + end
     return ['hms_find.0:2', 'hms_find.1:1', 'hms_find.2:1', 'hms_find.3:1', 'hms_find.4:%d' % (l + 2)]
 
-def FIND_INT(l, e):
-    # INT with at most e interfering steps: every retry needs one, the walk visits <= l nodes + end per pass
-    return ['hms_find.0:2', 'hms_find.1:%d' % (e + 1), 'hms_find.2:%d' % (e + 1), 'hms_find.3:%d' % (e + 1), 'hms_find.4:%d' % ((e + 2) * (l + 1) + 1)]
-
 def retry_cut(s, lw):
     """INT variant of find: the label `retry` is a second cut point (arrival from the function entry = base case, every `goto retry` = step case)"""
     s = xassert_rule(s, lw)
@@ -181,12 +178,17 @@ UNIT = dict(
         '(acquire, acquire_if_equal, reset, reclaim, copy/move construction and assignment, swap, destructor, conversions) is a contract stub maintaining the ghost '
         'protection count of the node; implicit C++ operations (copy/move/destructor/conversion of guards, find_info and iterator) are made explicit calls by the unit-local '
         'rules guard_rules/dtors in unit.py; new/delete become pool allocation with a ghost allocated flag; by-value std::pair<iterator,bool> / iterator results are '
-        'written through an out-parameter `ret`; defaulted iterator copy/move and the find_info member initialisers are harness macros (member-wise guard copy/move)',
+        'written through an out-parameter `ret`; defaulted iterator copy/move and the find_info member initialisers are harness functions (member-wise guard copy/move). '
+        'INT runs: the environment is the reflexive-transitive closure of the legal steps of other threads (env.h), applied before every atomic access; retry loops are cut by '
+        'invariants (sources *_i / find_cut = the same texts lowered with cut points); callers use the INT contract of find proved on its text by run find_int',
   assumptions=['guard_ptr contract (per reclaimer, units hp/he/qsbr/lfrc/...): acquire(p) = atomic snapshot of p and protects it; acquire_if_equal(p, e) is true iff p == e at its read '
                '(then protects e, else the guard is empty); reset/destructor drop the protection; reclaim() retires the node and empties the guard; copy adds, move transfers a protection; '
                'a protected or not yet retired node is not freed',
                'iterator(list, find_info&&) constructor, defaulted iterator copy/move: modelled member-wise (no function text to extract)',
-               'operator++(int) (copy, ++, return copy) is not lowered: it is the composition of the copy model and operator++'],
+               'operator++(int) (copy, ++, return copy) is not lowered: it is the composition of the copy model and operator++',
+               'INT rely: other threads perform only legal Harris-Michael steps (insert between an unmarked node and its successor in key order, mark, unlink a marked node and retire it once, free only retired unprotected nodes); this is what the guarantee side (hms.*.commit: every successful CAS of an operation is such a legal step) establishes for every operation of this unit',
+               'memory model: sequentially consistent atomics (model/xv.h); the acquire/release annotations (1)-(13) of the header are not examined by this unit',
+               'Key = 8-bit integer in the model (keys are only compared; 8 bits realise every order type of the <= L+3 keys involved), compare = std::less'],
   consts=[],
   sources=[
     dict(COMMON, id='find', file=F, sig=r'bool ' + P + r'find\(const Key& key, find_info& info, backoff& backoff\)',
